@@ -131,9 +131,12 @@ def mutate_content(rng, c, nul="guarded"):
     if not lines or rng.random() < 0.2:
         return gen_content(rng, nul)
     for _ in range(rng.randint(1, 2)):
+        if not lines:
+            lines.append(rng.choice(LINES))
+            continue
         i = rng.randrange(len(lines) + 1)
         r = rng.random()
-        if r < 0.4 or not lines:
+        if r < 0.4:
             new = rng.choice(LINES) if (not nul or rng.random() < 0.85) else _binary(rng, nul)
             if i < len(lines) or lines[-1].endswith(b"\n"):
                 lines.insert(i, new)
